@@ -331,6 +331,70 @@ class Prop(SeqProp):
                     return f"op {i} `{op}`: {line!r}, last-min(k,c) reference gives {exp!r}"
         return None
 
+    # an output stream that fails once (a full pipe, a closed descriptor) in the middle of PrintBuffer's printing: the exception
+    # reaches the caller, nothing is lost — what was not written is still held, and once the stream works again flush() writes
+    # the rest; in the end every value is in the output exactly once, in serial order
+    def extra_scenarios(self, rng, tier):
+        out = []
+        for _ in range(120 if tier == "quick" else 1500):
+            n = rng.randint(2, 9)
+            perm = list(range(n))
+            rng.shuffle(perm)
+            out.append({"kind": "failing-stream", "arrivals": perm, "fail_at": rng.randint(0, n - 1),
+                        "end": rng.choice(["\n", "\n", ";;"]), "flush_mid": rng.random() < 0.3})
+        return out
+
+    def run_extra(self, desc):
+        from windpyutils.buffers import PrintBuffer
+        end = desc["end"]
+
+        class Stream:
+            """counts the writes of values (not of the terminator) and fails the k-th one, once"""
+
+            def __init__(self, k):
+                self.k, self.n, self.parts, self.failed = k, 0, [], False
+
+            def write(self, data):
+                if data != end:
+                    if self.n == self.k and not self.failed:
+                        self.failed = True
+                        raise OSError("the stream cannot be written right now")
+                    self.n += 1
+                self.parts.append(data)
+                return len(data)
+
+            def flush(self):
+                pass
+
+        st = Stream(desc["fail_at"])
+        pb = PrintBuffer(st, end=end)
+        arrivals = desc["arrivals"]
+        for j, sn in enumerate(arrivals):
+            try:
+                pb.print(sn, f"v{sn}")
+            except OSError:
+                if pb.waiting_for == sn:
+                    pb.print(sn, f"v{sn}")  # nothing of this value was written and it is not counted: the caller tries again
+            if desc["flush_mid"] and j == len(arrivals) // 2:
+                try:
+                    pb.flush()
+                except OSError:
+                    pb.flush()
+                break
+        try:
+            pb.flush()
+        except OSError:
+            pb.flush()
+        text = "".join(st.parts)
+        got = [x for x in text.split(end) if x != ""]
+        fed = arrivals[:len(arrivals) // 2 + 1] if desc["flush_mid"] else arrivals
+        want = [f"v{k}" for k in sorted(fed)]
+        if got != want or len(pb) != 0:
+            return (f"arrivals {arrivals}, the stream failed once at its write number {desc['fail_at']}"
+                    f"{' (flush half-way)' if desc['flush_mid'] else ''}: output {got}, held {len(pb)}; every value fed "
+                    f"({want}) belongs into the output exactly once, in serial order")
+        return None
+
     def key(self, case, impl_out):
         if sum(1 for o in case.ops if o.startswith(("put", "print"))) >= 3:
             return hash((case.meta["kind"],) + tuple(case.ops))
